@@ -261,6 +261,8 @@ def fallible_flows_ok(ctx, c, f):
 
 def s7_prop(ctx, prop_id):
     ob, dis, details = proof_obligations(ctx, prop_id)
+    if prop_id == 'C01':
+        expected_probes(ctx, ['annotation-leak/Loose'])
     cases = load_cases(ctx)
     if cases is not None:
         corpus = load_corpus(ctx, prop_id)
@@ -949,6 +951,7 @@ def c15(ctx):
             'include flags) on every case; validators proved sound in Lean on the implementation\'s bound chain: every non-optional returned type '
             'of an included provider has an included receiver above; checkShadowing accepts the bound list; non-trivial = chain with a wrapper '
             'or fallible injector (something returns upward); distinct = provider lists')
+    expected_probes(ctx, ['annotation-leak/AllowReturnShadowing', 'annotation-leak/ConsumptionOptional'])
     return include_family(ctx, 'C15',
                           [('consumed', 'ok', 'a returned value has no included receiver above and is not ConsumptionOptional', None),
                            ('shadow', 'ok', 'a wrapper overrides a returned type it did not receive (checkForShadowing would reject)', None)],
@@ -1070,6 +1073,7 @@ def c14(ctx):
     rule = ('for a Desired or auto-desired provider d of a generated chain (not Shun\'d, not in a Cluster) the chain is re-run with d marked '
             'Required: d must be included in the base exactly when the variant binds, and then both behave identically (verdict, included '
             'set, trace); MustConsume: verified validator on the implementation\'s bound chain (nearest actual consumer); S5 correspondence')
+    expected_probes(ctx, ['annotation-leak/MustConsume'])
     return pair_family(ctx, 'C14', 'desired', [('plain', n), ('reorderplain', n // 3)], n, ['desired'], rule, extra)
 
 
@@ -1225,6 +1229,7 @@ def c11(ctx):
             'creation; every 5 operations each is re-bound and run and compared with its behaviour at creation; finally 8 goroutines bind '
             'the shared collections concurrently under the race detector; write inventory regenerated from the source (decide)')
     ob, dis, details = proof_obligations(ctx, 'C11')
+    expected_probes(ctx, ['annotation-leak/'])
     rounds = 40 if ctx.tier == 'quick' else 400
     lines, races, stderr = vcheck.history_run(ctx, rounds)
     ndiff = 0; nhist = 0; ncoll = 0; steps = 0
@@ -1279,6 +1284,23 @@ def probes_run(ctx):
     p = subprocess.run([hb, 'probes'], stdout=subprocess.PIPE, stderr=subprocess.PIPE, text=True, timeout=600)
     open(tag, 'w').write(p.stdout)
     return p.stdout.split('\n')
+
+
+def expected_probes(ctx, prefixes):
+    """probes whose name ends in `expect=<verdict>`: the API must answer exactly that (used for the annotation-leak probes:
+    deriving F[B](p) from p must not give p itself the annotation)"""
+    n = 0
+    for l in probes_run(ctx) or []:
+        if not l.startswith('probe '):
+            continue
+        name = l.split('"')[1]; verdict = l.split('"')[2].strip().split(':')[0].split()[0]
+        if ' expect=' not in name or not any(name.startswith(p) for p in prefixes):
+            continue
+        n += 1
+        want = name.split(' expect=')[1]
+        if verdict != want:
+            ctx.violations.append(('probe %s: answered %s' % (name, verdict), write_replay(ctx, 'probe_%s.txt' % re.sub(r'[^A-Za-z]+', '_', name), l), True))
+    ctx.cov['expected_probes'] = n
 
 
 @prop('C04')
